@@ -50,6 +50,7 @@ _forbidden_scheme_options = set(["salt"])
 # NOTE: this isn't really needed any longer, since Handler.using() handles the actual parsing.
 #       keeping this around for now, though, since it makes context.to_dict() output cleaner.
 _coerce_scheme_options = dict(
+    rounds=int,
     min_rounds=int,
     max_rounds=int,
     default_rounds=int,
